@@ -17,9 +17,14 @@ for f in k['findings']:
     cmd = ['/venv/bin/python', os.path.join(ROOT, parts[0])] + (['/repo'] if not parts[1:] else parts[1:])
     if parts[0].endswith('F14_atomicity.py'):
         cmd = ['/venv/bin/python', os.path.join(ROOT, parts[0])] + parts[1:]
-    r = subprocess.run(cmd, capture_output=True, text=True, timeout=900)
-    last = (r.stdout.strip().splitlines() or [''])[-1]
-    ok = (r.returncode == 0) if f['status'] == 'fixed' else (r.returncode != 0 or 'DEFECT' in r.stdout)
+    for attempt in (1, 2):
+        # a witness that compares two generations of an image can trip over a clock second that passes between them:
+        # an unexpected result is tried once more
+        r = subprocess.run(cmd, capture_output=True, text=True, timeout=900)
+        last = (r.stdout.strip().splitlines() or [''])[-1]
+        ok = (r.returncode == 0) if f['status'] == 'fixed' else (r.returncode != 0 or 'DEFECT' in r.stdout)
+        if ok:
+            break
     seen[key] = ok
     if not ok:
         bad += 1
